@@ -550,6 +550,7 @@ type ReplayFile struct {
 	OrigPlanLen  int        `json:"orig_plan_len"`
 	OrigSchedLen int        `json:"orig_sched_len"`
 	RepoHash   string       `json:"repo_hash,omitempty"`
+	FromSeed   bool         `json:"from_seed,omitempty"`
 	Known      string       `json:"known_finding,omitempty"`
 }
 
